@@ -122,8 +122,8 @@ def kernelStep (toks : List String) : String :=
   | ["unionisets", st, en] =>
     match parseArr st, parseArr en with
     | some st, some en =>
-      if h : st.size = en.size ∧ 0 < st.size then
-        let r := jitunionIsets st en h.1 h.2
+      if h : st.size = en.size then
+        let r := jitunionIsets st en h
         showArr r.st ++ "|" ++ showArr r.en
       else "pre-fail"
     | _, _ => "bad-op"
